@@ -12,6 +12,7 @@ import (
 )
 
 func init() {
+	vRegister("vC34_history2", vC34_history2)
 	vRegister("vC34_history4", vC34_history4)
 	vRegister("vC34_history5", vC34_history5)
 	vRegister("vC34_history6", vC34_history6)
@@ -24,8 +25,6 @@ func init() {
 // node 0 is the local node (discovery.Node{Host: "h0", PeersPort: 1}.PeersAddress() == "h0:1")
 var vC34_names = [4]string{"h0:1", "h1:1", "h2:1", "h3:1"}
 var vC34_reasons = [3]string{rebalanceReasonNodeLeft, rebalanceReasonNodeJoin, "manual"}
-
-const vC34_chanCap = 8
 
 // the set behind nodeJoinedEventsFilter / nodeLeftEventsFilter: only Add/Contains/Remove are used by the code under test
 type vC34Set struct {
@@ -48,10 +47,10 @@ func (s *vC34Set) Contains(vs ...string) bool {
 }
 func (s *vC34Set) Remove(v string) { delete(s.m, v) }
 
-func vC34_newCluster() *cluster {
+func vC34_newCluster(chanCap int) *cluster {
 	return &cluster{
 		node:                    &discovery.Node{Host: "h0", PeersPort: 1},
-		events:                  make(chan *Event, vC34_chanCap),
+		events:                  make(chan *Event, chanCap),
 		nodeJoinedEventsFilter:  &vC34Set{m: map[string]struct{}{}},
 		nodeLeftEventsFilter:    &vC34Set{m: map[string]struct{}{}},
 		nodeJoinTimestamps:      make(map[string]int64),
@@ -103,6 +102,7 @@ const (
 	vC34_overdue
 )
 
+func vC34_history2()  { vC34_run(3, false) }
 func vC34_history4()  { vC34_run(4, false) }
 func vC34_history5()  { vC34_run(5, false) }
 func vC34_history6()  { vC34_run(6, false) }
@@ -112,46 +112,55 @@ func vC34_progress5() { vC34_run(5, true) }
 func vC34_progress6() { vC34_run(6, true) }
 
 func vC34_run(K int, progress bool) {
-	x := vC34_newCluster()
+	x := vC34_newCluster(K) // a step emits at most one event per earlier notification, so K slots never overflow
 	var m vC34Mon
 	for k := 0; k < K; k++ {
+		// one notification: kind, the node it names, and (for rebalance events) epoch and reason
 		kind := vChoose("kind", 5)
 		n := vChoose("node", 4)
-		vAssume(kind >= 0 && kind < 5 && n >= 0 && n < 4)
-		node := vC34_names[n]
+		e := vChoose("epoch", 3) + 1
+		r := vChoose("reason", 3)
 		ts := int64(k+1) * 1000000
-		switch kind {
-		case vC34_join:
-			m.joinNotified[n] = true
-			m.leftOpen[n] = false
-			x.trackNodeJoinEvent(events.NodeJoinEvent{NodeJoin: node, Timestamp: ts})
-		case vC34_left:
-			m.leftNotified[n] = true
-			m.joinedOpen[n] = false
-			if m.lastOut[n] != 1 {
-				m.wantLeft[n] = true
+		// the node / epoch are dispatched over their (small) domains so the handlers run on concrete map keys
+		for c := 0; c < 4; c++ {
+			if n != c {
+				continue
 			}
-			x.trackNodeLeftEvent(events.NodeLeftEvent{NodeLeft: node, Timestamp: ts})
-		case vC34_start:
-			e := vChoose("epoch", 3) + 1
-			r := vChoose("reason", 3)
-			vAssume(e >= 1 && e <= 3 && r >= 0 && r < 3)
-			if r < 2 && !(r == 1 && n == 0) && !m.startSeen[e] {
-				m.startSeen[e] = true
-				if r == 0 {
-					m.leftLatest = e
-				} else {
-					m.joinLatest = e
+			switch kind {
+			case vC34_join:
+				m.joinNotified[c] = true
+				m.leftOpen[c] = false
+				x.trackNodeJoinEvent(events.NodeJoinEvent{NodeJoin: vC34_names[c], Timestamp: ts})
+			case vC34_left:
+				m.leftNotified[c] = true
+				m.joinedOpen[c] = false
+				if m.lastOut[c] != 1 {
+					m.wantLeft[c] = true
 				}
+				x.trackNodeLeftEvent(events.NodeLeftEvent{NodeLeft: vC34_names[c], Timestamp: ts})
+			case vC34_overdue:
+				x.emitOverdueNodeLeft(vC34_names[c])
 			}
-			x.processRebalanceStart(events.RebalanceStartEvent{Epoch: uint64(e), Reason: vC34_reasons[r], Node: node})
-		case vC34_complete:
-			e := vChoose("epoch", 3) + 1
-			vAssume(e >= 1 && e <= 3)
-			m.completeSeen[e] = true
-			x.processRebalanceComplete(events.RebalanceCompleteEvent{Epoch: uint64(e)})
-		case vC34_overdue:
-			x.emitOverdueNodeLeft(node)
+		}
+		for c := 1; c <= 3; c++ {
+			if e != c {
+				continue
+			}
+			switch kind {
+			case vC34_start:
+				if r < 2 && !(r == 1 && n == 0) && !m.startSeen[c] {
+					m.startSeen[c] = true
+					if r == 0 {
+						m.leftLatest = c
+					} else {
+						m.joinLatest = c
+					}
+				}
+				x.processRebalanceStart(events.RebalanceStartEvent{Epoch: uint64(c), Reason: vC34_reasons[r], Node: vC34_names[n]})
+			case vC34_complete:
+				m.completeSeen[c] = true
+				x.processRebalanceComplete(events.RebalanceCompleteEvent{Epoch: uint64(c)})
+			}
 		}
 		leftSettled := m.leftLatest != 0 && m.completeSeen[m.leftLatest]
 		joinSettled := m.joinLatest != 0 && m.completeSeen[m.joinLatest]
